@@ -446,7 +446,22 @@ def run(ctx: Ctx) -> Outcome:
             states += r.distinct
             trans += r.states
             cex = sorted({tuple(p[1:7]) for p in r.prints if p and p[0] == 'CEX'})
-            missing = [a for a in REQUIRED_ACTIONS if r.coverage.get(a, 0) == 0]
+            # (an action named after a pass can only be taken if compile() still builds a workflow with that pass; a
+            # workflow that lost a pass is for Compat.tla / PipelineTrace.tla to judge, not a failure of the machinery)
+            present = set()
+
+            def leaves(prog):
+                for nd in prog:
+                    if nd['t'] == 'pass':
+                        present.add(nd['name'])
+                    elif nd['t'] == 'if':
+                        leaves(nd['then']), leaves(nd['else'])
+                    else:
+                        leaves(nd['body'])
+            for b in built:
+                leaves(b['prog'])
+            structural = {a for a in REQUIRED_ACTIONS if a.startswith(('ForEach', 'If', 'While'))}
+            missing = [a for a in REQUIRED_ACTIONS if r.coverage.get(a, 0) == 0 and (a in structural or a in present)]
             if missing:
                 raise MachineryError('Pipeline.tla: actions never taken (vacuous model): %s' % missing)
             more = finish_cases(cex_cases(cex, rng, ctx.quick), rng, ctx.quick)
@@ -501,21 +516,24 @@ def run(ctx: Ctx) -> Outcome:
         pth = threading.Thread(target=traces_part)
         pth.start()
         if compat:
-            bad = corrupted_compat_cases(compat) if rp is None else []
-            cv, s, t_, _ = exact.par_validate(COMPAT, COMPAT_CFG, compat + [c for _, c, _ in bad], ctx.scratch, groups=1, chunk=400, env=cc.JVM_ENV)
+            cv, s, t_, _ = exact.par_validate(COMPAT, COMPAT_CFG, compat, ctx.scratch, groups=1, chunk=400, env=cc.JVM_ENV)
             states += s
             trans += t_
-            got = {}
+            # oracle self-test on corrupted copies of an output the oracle accepted (second, small TLC run)
+            refused = {v[0] for v in cv}
+            bad = corrupted_compat_cases([c for i, c in enumerate(compat) if i not in refused]) if rp is None else []
+            if bad:
+                bv, s, t_, _ = exact.par_validate(COMPAT, COMPAT_CFG, [c for _, c, _ in bad], ctx.scratch, groups=1, chunk=400, env=cc.JVM_ENV)
+                states += s
+                trans += t_
+                got = {}
+                for idx, _st, clause, extra in bv:
+                    got.setdefault(idx, clause)
+                for i, (name, _c, want) in enumerate(bad):
+                    selftest[name] = got.get(i, 'ACCEPTED')
+                    if got.get(i) != want:
+                        raise MachineryError('C02 oracle self-test: corrupted observation %r was judged %r, expected %r' % (name, got.get(i, 'accepted'), want))
             for idx, _st, clause, extra in cv:
-                if idx >= len(compat):
-                    got.setdefault(idx - len(compat), clause)
-            for i, (name, _c, want) in enumerate(bad):
-                selftest[name] = got.get(i, 'ACCEPTED')
-                if got.get(i) != want:
-                    raise MachineryError('C02 oracle self-test: corrupted observation %r was judged %r, expected %r' % (name, got.get(i, 'accepted'), want))
-            for idx, _st, clause, extra in cv:
-                if idx >= len(compat):
-                    continue
                 c, r, o = owner[idx]
                 native = set(compat[idx]['gateset'])
                 key = key_of_out(c, clause, extra)
